@@ -183,6 +183,7 @@ func execModes(line string) (res h.Result) {
 		return h.Result{Obs: "bad-line"}
 	}
 	name, tc, alt, w, hh := f[0], f[1] == "1", f[2] == "1", h.Atoi(f[3]), h.Atoi(f[4])
+	name, staleVariant := splitLockGuard(name)
 	var ops []string
 	if len(f) == 6 {
 		ops = h.SplitTrim(f[5], ";")
@@ -486,6 +487,9 @@ func execModes(line string) (res h.Result) {
 		}
 	}
 	res.Obs = strings.Join(obs, " ")
+	if staleVariant {
+		res.Obs = "SKIP line recorded on a tree of the other locked-neighbour variant: judged by the oracle only"
+	}
 	if !alive {
 		res.Obs = "SKIP a call panicked or hung: " + res.Obs
 	}
@@ -587,7 +591,7 @@ func genModes(g *h.Gen) {
 			ops = append(ops, h.Pick(r, []string{"Q", "Z", "ME 7", "W", "B", "PE"}), h.Pick(r, []string{"Q", "Z"}))
 		}
 		ops = append(ops, fitOps(name, cols)...)
-		g.Emit("modes %s %d %d %d %d %s", name, r.Intn(2), alt, w, hh, strings.Join(ops, "; "))
+		g.Emit("modes %s%s %d %d %d %d %s", name, lockGuardSuffix(), r.Intn(2), alt, w, hh, strings.Join(ops, "; "))
 	}
 }
 
